@@ -134,7 +134,7 @@ impl TransportFn<()> for Run {
         // usage: the reference devices judge every request by the negotiated features
         with(|w| w.hal.capture = Some(Vec::new()));
         let used_event_before = with(|w| w.store_kinds[3]);
-        let r = crate::runner::guarded(|| zoo::light_use(&mut d, false));
+        let r = crate::runner::guarded(|| zoo::light_use(&mut d, true));
         match r {
             Err((msg, loc)) => violation("usage-panicked", site, format!("{msg} at {loc}")),
             Ok(Err(e)) => violation("usage-failed", site, format!("{e:?}")),
@@ -142,6 +142,16 @@ impl TransportFn<()> for Run {
         }
         let hal2 = with(|w| w.hal.capture.take().unwrap_or_default());
         check_ap(&hal2, "usage");
+        // The network header has its 12-byte form exactly when VERSION_1 was negotiated: the
+        // reference device strips the header of the negotiated size, so the frames it saw are the
+        // frames sent (60 bytes, then an empty one) only if the driver used that size throughout.
+        if matches!(self.kind, Kind::NetRaw | Kind::Net) && !crate::world::violated() {
+            let seen: Vec<usize> = with(|w| w.personality::<crate::devices::net::NetDev>().tx.iter().map(|(_, f)| f.len()).collect());
+            let want: &[usize] = if self.kind == Kind::NetRaw { &[60, 0] } else { &[64, 0] };
+            if seen != want {
+                violation("net-header-size", site, format!("device saw frames of {seen:?} bytes after its {}-byte header, caller sent {want:?}", if accepted & F_VERSION_1 != 0 { 12 } else { 10 }));
+            }
+        }
         let used_event_after = with(|w| w.store_kinds[3]);
         if accepted & F_EVENT_IDX == 0 && used_event_after != used_event_before {
             violation("event-idx-not-negotiated", site, "used_event was written although EVENT_IDX was not negotiated".into());
